@@ -149,7 +149,36 @@ func RunShard(c *Ctx, progress *os.File) {
 	// has run with it off, and the first cases of every phase run once more.  The library's own measure
 	// (length.StringCells, which every oracle here uses) follows the switch; whatever the library lays out
 	// must follow it too.
-	if p.Race || p.NoWidthSwitch {
+	if p.Race {
+		return
+	}
+	// A process-wide setting of the Go runtime first: the program confines itself to one processor
+	// (runtime.GOMAXPROCS(1), which is also what a one-CPU container gives a program from the start), and the
+	// first cases of every phase run once more; then the setting goes back to what it was.
+	oldProcs := runtime.GOMAXPROCS(1)
+	c.Rec.SetEnv(EnvOneProc)
+	for pi := range p.Phases {
+		ph := &p.Phases[pi]
+		if ph.Solo {
+			continue
+		}
+		n := ph.N(c.Thorough)
+		done := 0
+		for i := 0; i < n && done < 10; i++ {
+			if shardOf(i, c.NShards) != c.Shard {
+				continue
+			}
+			done++
+			RunCase(c, pi, i)
+			c.Rec.Count("cases_run_again_with_GOMAXPROCS_set_to_1", 1)
+			if c.Rec.Stop() {
+				return
+			}
+		}
+	}
+	runtime.GOMAXPROCS(oldProcs)
+	c.Rec.SetEnv("")
+	if p.NoWidthSwitch {
 		return
 	}
 	SwitchEastAsianWidth(c)
@@ -173,6 +202,9 @@ func RunShard(c *Ctx, progress *os.File) {
 		}
 	}
 }
+
+// EnvOneProc names the pass during which the process runs with runtime.GOMAXPROCS(1).
+const EnvOneProc = "runtime.GOMAXPROCS(1) set in mid-process"
 
 // EnvEastAsian is the name of the setting SwitchEastAsianWidth puts in force.
 const EnvEastAsian = "go-runewidth DefaultCondition.EastAsianWidth switched on in mid-process"
